@@ -41,6 +41,7 @@ def swarm(seed, tier, profile="general"):
         "Rcap": 16 if big else 12,
         "cond_max": 10 ** r.uniform(0.5, 3.0),
         "profile": profile,
+        "tier": tier,
     }
     wts = dict(DEFAULT_WEIGHTS)
     # swarm: drop a random subset of operation kinds, boost a few
@@ -53,6 +54,19 @@ def swarm(seed, tier, profile="general"):
             wts[k] *= 3.0
     if all(wts[k] == 0 for k in names):
         wts["multiply"] = 5.0
+    if profile == "product":
+        wts = {"root": 1.0, "slice": 1.0, "multiply": 9.0, "product": 2.0, "get_density": 1.0, "normalize": 0.5,
+               "obs": 2.0}
+        for k in ("slice", "product", "get_density", "normalize"):
+            if r.coin(0.3):
+                wts[k] = 0.0
+    if profile == "sample":
+        wts = {"root": 2.0, "slice": 2.0, "multiply": 1.0, "get_density": 2.5, "marginal": 1.5, "linear_sum": 1.0,
+               "cond_x": 1.5, "affine": 2.5, "update": 1.5, "normalize": 0.5, "obs": 1.0, "sample": 8.0}
+        for k in ("slice", "multiply", "marginal", "linear_sum", "cond_x", "affine", "update"):
+            if r.coin(0.3):
+                wts[k] = 0.0
+        cfg["cond_max"] = 10 ** r.uniform(0.5, 3.5)
     cfg["weights"] = wts
     roots = []
     for grp, p in ((FACTOR_ROOTS, 0.8), (MEASURE_ROOTS, 0.8), (PDF_ROOTS, 0.8), (COND_ROOTS, 0.6)):
@@ -61,6 +75,12 @@ def swarm(seed, tier, profile="general"):
                 roots.append(c)
     if not any(c in roots for c in MEASURE_ROOTS + PDF_ROOTS):
         roots.append(r.choice(MEASURE_ROOTS + PDF_ROOTS))
+    if profile == "product":
+        roots = [c for c in FACTOR_ROOTS + MEASURE_ROOTS + PDF_ROOTS if r.coin(0.75)]
+        if not any(c in roots for c in MEASURE_ROOTS + PDF_ROOTS):
+            roots.append(r.choice(MEASURE_ROOTS + PDF_ROOTS))
+        if not any(c in roots for c in FACTOR_ROOTS):
+            roots.append(r.choice(FACTOR_ROOTS))
     cfg["roots"] = roots
     cfg["fault_rate"] = r.uniform(0.25, 0.7)
     return cfg
@@ -368,6 +388,20 @@ class Gen:
             rec["callable"] = r.coin(0.4)
         return rec
 
+    def g_sample(self):
+        r = self.r
+        s = self.pick(("pdf",))
+        if s is None:
+            return None
+        prev = [x for x in self.records if x.get("name") == "sample" and x["a"] == s.id
+                and not any(y["op"] in model.MUTATORS and y.get("a") == s.id for y in self.records[self.records.index(x):])]
+        if prev and r.coin(0.3):
+            p = r.choice(prev)  # replay an earlier (density, key, n): must be bit-identical
+            return {"op": "obs", "a": s.id, "name": "sample", "key": list(p["key"]), "n": p["n"], "jit": p.get("jit", False), "dup_of": self.records.index(p)}
+        n = r.wchoice([r.integers(1, 8), r.integers(8, 64), 20000 if self.cfg.get("tier") != "thorough" else 200000], [3, 5, 0.35])
+        key = [int(r.g.integers(0, 2 ** 32)), int(r.g.integers(0, 2 ** 32))]
+        return {"op": "obs", "a": s.id, "name": "sample", "key": key, "n": int(n), "jit": r.coin(0.12)}
+
     # -- driver ------------------------------------------------------------------------
     def history(self):
         cfg, r = self.cfg, self.r
@@ -416,6 +450,9 @@ def fault_schedule(seed, k, records, cfg, kinds=("warm", "dup", "evict"), restor
                 continue
             kind = r.choice(list(kinds) + (["restore"] if restore_vias else []))
             f = {"kind": kind, "slot": sid}
+            if kind == "rekey":
+                f["key"] = [int(r.g.integers(0, 2 ** 32)), int(r.g.integers(0, 2 ** 32))]
+                f["n"] = r.integers(1, 16)
             if kind in ("warm", "dup"):
                 from .perturb import WARM_QUERIES
                 f["q"] = r.choice(WARM_QUERIES)
